@@ -17,6 +17,7 @@ EXPLANATION = ("Def-use and order facts that hold for every schedule if they hol
                "its own bytes under all schedules is not decided (C01/C14 layout rules cover the encoding)."
                " (R5) finalize hands both open clusters to the writer, joins, then writes the tables; (R6) the table positions recorded in the header are tell() taken right before the table is written, never computed from a cluster address."
                ' Added later: (R7) positions are asked of the buffering stream (= C01-R19); (R8) a Late<T> slot owns its value (clones made by resize do not alias). (R9) the number of compression workers has a floor of one. (R10) the width of the cluster tail\'s fields covers every value written with it (= C01-R7).')
+EXPLANATION += ' Batch 11: (R11) a cluster that holds contents is handed to the writer whatever their size (= C01-R13); (R1) resize_with counts as a resize.'
 ASSUMPTIONS = ["std mpsc / spmc channels deliver each message once", "rustc MIR construction and trait resolution"]
 
 
@@ -34,7 +35,7 @@ def r1_address_table(cx):
     recv = b.calls(r"mpsc::Receiver::<.*WriteTask>::recv$")
     idx = [(i, t) for i, t in b.calls(r"Vec<.*Late<.*>> as std::ops::Index(Mut)?<usize>>::index(_mut)?$")]
     sets = b.calls(r"Late::<.*>::set$")
-    rs = b.calls(r"Vec::<.*Late<.*>>::resize$")
+    rs = b.calls(r"Vec::<.*Late<.*>>::(resize|resize_with)(::<.*>)?$")
     ok = len(recv) == 1 and len(idx) == 1 and len(sets) == 1 and len(rs) == 1
     cx.ob("R1", "R1/anchors", ok, f, "ClusterWriter::run: one recv, one cluster_addresses[idx], one set, one resize (found %d/%d/%d/%d)" % (len(recv), len(idx), len(sets), len(rs)))
     if not ok:
@@ -355,7 +356,15 @@ def r10_tail_fields_fit_their_width(cx):
     c01.width_covers(cx, "R10", f, F.body(f))
 
 
+def r11_every_cluster_with_contents_is_written(cx):
+    """'every address still resolves': a cluster that was given an id and holds contents is handed to the writer, whatever
+    the size of its contents (= C01-R13 under C08: both vectors grow for every content, is_empty counts contents)"""
+    import c01
+    reuse(cx, c01.r13_creator_addresses, "R13", "R11", only="ClusterCreator")
+
+
 RULES = [
+    ("R11", r11_every_cluster_with_contents_is_written, 2),
     ("R10", r10_tail_fields_fit_their_width, 1),
     ("R9", r9_at_least_one_worker, 1),
     ("R8", r8_address_slots_are_independent, 1),
